@@ -240,9 +240,11 @@ Definition show_sdp (p : sdp) :=
    data p).
 Definition show_scp (q : scp) := (show_sdp (sdp_part q), [cmd_rc q; seq q], [arg1 q; arg2 q; arg3 q]).
 Definition rmap {A B} (f : A -> B) (r : result A) : result B := bind r (fun a => Ok (f a)).
-Definition dg (h : Z) (bs : list Z) : Z := fold_left (fun h b => Z.land (h * 257 + b + 1) 2305843009213693951) bs h.
-Definition dgr (h : Z) (r : result (list Z)) : Z :=
-  match r with Ok bs => dg h bs | _ => Z.land (h * 257 + 300) 2305843009213693951 end.
+(* Fletcher-style running digest (a, c): a += b + 1; c += a  -- no modulus, the numbers stay below 2^50 *)
+Definition dg (h : Z * Z) (bs : list Z) : Z * Z :=
+  fold_left (fun h b => let a := fst h + b + 1 in (a, snd h + a)) bs h.
+Definition dgr (h : Z * Z) (r : result (list Z)) : Z * Z :=
+  match r with Ok bs => dg h bs | _ => dg h [300] end.
 Fixpoint zrange_from (lo : Z) (n : nat) : list Z := match n with O => [] | S m => lo :: zrange_from (lo + 1) m end.
 Definition zrange (lo n : Z) : list Z := zrange_from lo (Z.to_nat n).
 Definition set_cmd (q : scp) v := {| sdp_part := sdp_part q; cmd_rc := v; seq := seq q; arg1 := arg1 q; arg2 := arg2 q; arg3 := arg3 q |}.
@@ -279,11 +281,11 @@ def coq_expr(c):
     if k == "dec_scp":
         return "rmap show_scp (scp_of_bytes %s %s)" % (zl(c[1]), "scp_default_n_args" if c[2] is None else zlit(c[2]))
     if k == "sweep16":
-        return "fold_left (fun h v => dgr h (scp_bytes (%s %s v))) (zrange %d %d) 0" % (
+        return "fold_left (fun h v => dgr h (scp_bytes (%s %s v))) (zrange %d %d) (0, 0)" % (
             "set_cmd" if c[1] == 11 else "set_seq", coq_scp(c[2]), c[3], c[4] - c[3])
     if k == "sweep16dec":
         return ("fold_left (fun h v => dgr h (rmap (fun q => [cmd_rc q; seq q]) (scp_of_bytes (set2 %s %d v) 3))) "
-                "(zrange %d %d) 0" % (zl(c[2]), c[1], c[3], c[4] - c[3]))
+                "(zrange %d %d) (0, 0)" % (zl(c[2]), c[1], c[3], c[4] - c[3]))
     raise ValueError(k)
 
 
@@ -299,7 +301,7 @@ def unopt(a):
 def canon_model(c, v):
     k = c[0]
     if k in ("sweep16", "sweep16dec"):
-        return ["digest", v]
+        return ["digest", list(v)]
     if v[0] != "Ok":
         return ["error", {"OtherError": "struct.error"}.get(v[0], v[0])]
     if k in ("enc_sdp", "enc_scp"):
@@ -440,10 +442,11 @@ def run(chk, args):
         cases += [dict(case=c, stream="corpus") for c in json.load(open(corpus))]
     # ---- implementation
     flat = [x["case"] for x in cases]
-    chunks = [flat[i:i + 4000] for i in range(0, len(flat), 4000)] + [[s] for s in sweeps]
-    res = chk.impl_parallel("impl_c15.py", chunks)
-    outs = [o for part in res[:len(res) - len(sweeps)] for o in part]
-    souts = [part[0] for part in res[len(res) - len(sweeps):]]
+    chunks = [flat[i:i + 4000] for i in range(0, len(flat), 4000)]
+    schunks = [sweeps[i:i + 4] for i in range(0, len(sweeps), 4)]
+    res = chk.impl_parallel("impl_c15.py", chunks + schunks)
+    outs = [o for part in res[:len(chunks)] for o in part]
+    souts = [o for part in res[len(chunks):] for o in part]
     reported = set()
 
     def report(hit, replay):
@@ -507,7 +510,7 @@ def run(chk, args):
             # the decodings rig made of its own encodings, decoded by the model from the same bytes
             rt = [(c, o) for c, o in zip(flat, outs) if c[0] in ("enc_sdp", "enc_scp") and o[0] == "ok"]
             if chk.tier == "quick":
-                rt = rt[:3000]
+                rt = rt[:1500]
             dcs = [["dec_sdp", o[1]] if c[0] == "enc_sdp" else ["dec_scp", o[1], c[2]] for c, o in rt]
             vals = chk.coq_eval(HEADER, [coq_expr(d) for d in dcs], shard=500, name="rt")
             bad = 0
